@@ -720,6 +720,21 @@ Theorem op_table_canonical :
   /\ between_key = "between"%string.
 Proof. vm_compute. repeat split. Qed.
 
+(* the special keys of parse_filter_dict against an independent reading of their spellings *)
+Theorem special_keys_meaning :
+  between_key = "between"%string
+  /\ (forall s, In s is_null_aliases -> s = "is_null"%string \/ s = "isnull"%string)
+  /\ (forall s, In s is_not_null_aliases -> s = "is_not_null"%string \/ s = "notnull"%string \/ s = "isnotnull"%string)
+  /\ In "is_null"%string is_null_aliases /\ In "is_not_null"%string is_not_null_aliases
+  /\ (forall s, In s (between_key :: is_null_aliases ++ is_not_null_aliases) -> assoc_str s op_table = None).
+Proof.
+  split; [reflexivity|].
+  split; [intros s H; simpl in H; intuition|].
+  split; [intros s H; simpl in H; intuition|].
+  split; [simpl; intuition|]. split; [simpl; intuition|].
+  intros s H. simpl in H. intuition (subst; reflexivity).
+Qed.
+
 Section Malformed.
   Variable X : value -> value -> bool.
   Variable E : cexpr -> row -> bool.
